@@ -272,6 +272,11 @@ def standard_orders(rng, tier):
     orders.append(o)
     sub = sorted(str(t) for t in parent_closed_random(rng, [t for t in T22 if t is not Generic]))
     orders.append(sub)
+    # refinement pairs that drop one sibling: a type that overlaps a sibling shows up as a contradiction between
+    # the smaller and the larger typeset whichever of the two the larger one visits first
+    orders.append([t for t in comp if t != "Boolean"])
+    orders.append([t for t in comp if t not in ("Categorical", "Ordinal")])
+    orders.append([t for t in comp if t not in ("Float",)])
     return orders
 
 
